@@ -71,6 +71,8 @@ func (c11) Gen(seed uint64, tier string) *Scenario {
 		m.Rows = append(m.Rows, rows)
 		sc.Files = append(sc.Files, FileSpec{Name: tableName(i) + ".csv", Content: counterTable(rows)})
 	}
+	// a table whose third record has too many fields: loading it fails half way
+	sc.Files = append(sc.Files, FileSpec{Name: "bad.csv", Content: "a,b\n1,2\n3,4\n5,6,7\n8,9\n"})
 	nproc := r.Range(1, 3)
 	kinds := []string{"inc", "inc", "selinc", "ins", "read", "forupd"}
 	for p := 0; p < nproc; p++ {
@@ -122,7 +124,12 @@ func (c11) Gen(seed uint64, tier string) *Scenario {
 				extra = fmt.Sprintf("INSERT INTO %s VALUES (1, 2, 3);", tableName(r.Intn(ntab)))
 			}
 		} else {
-			switch r.Intn(7) {
+			switch r.Intn(9) {
+			case 7:
+				// a load that fails in the middle of the file
+				extra = fmt.Sprintf("SELECT COUNT(*) FROM %s;\nSELECT * FROM bad;", tableName(0))
+			case 8:
+				extra = fmt.Sprintf("SELECT a.id FROM %s a JOIN bad b ON a.id = b.a;", tableName(0))
 			case 4:
 				extra = fmt.Sprintf("SELECT a.id, b.n FROM %s a JOIN `%s.csv` b ON a.id = b.id;\nSELECT x.id FROM %s x WHERE x.id IN (SELECT id FROM %s);", tableName(0), tableName(0), tableName(0), tableName(0))
 			case 5:
